@@ -589,12 +589,19 @@ def registry_rules(s):
     s.do({"t": "set_admin", "contract": COLL3, "admin": "usr5"}, "valid")      # ... which nobody can give one (refused)
     s.do({"t": "set_admin", "contract": "usr3", "admin": "usr5"}, "valid")     # not a contract (refused)
     reg(s, "usr3", 100)                              # not a contract
+    up = lambda coll, p, b, sender="usr5": s.do({"t": "reg", "sender": sender, "msg": {"k": "update", "coll": coll, "payout": p, "bps": b}}, "valid")
+    rm = lambda coll, sender="usr5": s.do({"t": "reg", "sender": sender, "msg": {"k": "remove", "coll": coll}}, "valid")
+    # nothing registered yet: the admin's Update / Remove of a collection without an entry (every shape of Update)
+    up(COLL1, "usr3", None)
+    up(COLL1, None, None)
+    up(COLL1, None, 100)
+    up(COLL1, "usr3", 100)
+    rm(COLL1)
+    s.query_here()
     reg(s, COLL1, 10, payout="x")
     reg(s, COLL1, 10)
     reg(s, COLL1, 20)                                # twice
     reg(s, COLL2, 300)
-    up = lambda coll, p, b, sender="usr5": s.do({"t": "reg", "sender": sender, "msg": {"k": "update", "coll": coll, "payout": p, "bps": b}}, "valid")
-    rm = lambda coll, sender="usr5": s.do({"t": "reg", "sender": sender, "msg": {"k": "remove", "coll": coll}}, "valid")
     adv(s, 5, dh=99)
     up(COLL1, None, 50)
     rm(COLL1)
@@ -615,6 +622,9 @@ def registry_rules(s):
     adv(s, 5, dh=100)
     rm(COLL1, sender="usr5")
     rm(COLL1, sender="usr4")
+    up(COLL1, "usr3", None, sender="usr4")           # removed: nothing to update, whatever the cooldown says
+    up(COLL1, None, None, sender="usr4")
+    s.query_here()
     reg(s, COLL1, 123, sender="usr4")                # immediate re-register
     s.do({"t": "set_admin", "contract": COLL2, "admin": None}, "valid")
     adv(s, 5, dh=100)
@@ -1045,6 +1055,62 @@ def queries_many_records(s):
     listing(s, "usr1", 1, [["uatom", 1]], G(n=[["uosmo", 7]]), secs=600)
 
 
+def odd_token_ids_cfg():
+    cfg = world.default_cfg()
+    k = 0
+    for c in cfg["contracts"]:
+        if c["kind"] == "cw721":
+            if k == 0:   # COLL1: ids that differ only in case / blanks / leading zeros / unicode normal form, next to plain "7"
+                c["tokens"] = [["Dragon", "usr0"], ["dragon", "usr1"], ["DRAGON", "usr2"], [" 7", "usr1"], ["7", "usr0"],
+                               ["7 ", "usr2"], ["07", "usr3"], ["7\t", "usr3"], ["\u00e9", "usr0"], ["e\u0301", "usr1"]]
+            k += 1
+    return cfg
+
+
+def odd_token_ids(s):
+    """C02 / C05 / C12 / C01: cw721 token ids are arbitrary strings.  Ids that differ only in letter case, surrounding blanks,
+    leading zeros or unicode normal form are different tokens: a record names the token that was deposited, a payout moves
+    that token, an ask is met by that token only, and two of them in one record are not duplicates."""
+    reg(s, COLL1, 100, "usr5")
+    # deposits through every NFT path: the record must name exactly the token that moved
+    nft_send(s, "usr1", COLL1, " 7", {"k": "create_bucket_cw721", "id": 1})
+    nft_send(s, "usr0", COLL1, "7", {"k": "create_bucket_cw721", "id": 2})
+    nft_send(s, "usr2", COLL1, "7 ", {"k": "create_listing_cw721", "id": 1, "ask": G(n=[["uatom", 5]]), "wl": None})
+    nft_send(s, "usr3", COLL1, "07", {"k": "add_to_bucket_cw721", "id": 3})          # no such bucket: refused
+    bucket(s, "usr3", 3, [["uatom", 5]])
+    nft_send(s, "usr3", COLL1, "07", {"k": "add_to_bucket_cw721", "id": 3})
+    nft_send(s, "usr3", COLL1, "7\t", {"k": "add_to_bucket_cw721", "id": 3})         # not a duplicate of "07" or "7"
+    s.query_here()
+    # payouts: each owner gets their own token back
+    s.do(E("usr1", {"k": "remove_bucket", "id": 1}), "valid")
+    s.do(E("usr0", {"k": "remove_bucket", "id": 2}), "valid")
+    s.do(E("usr3", {"k": "remove_bucket", "id": 3}), "valid")
+    s.do(E("usr2", {"k": "delete_listing", "id": 1}), "valid")
+    # asks: "dragon" is met by "dragon" only
+    listing(s, "usr3", 5, [["uosmo", 9]], G(f=[[COLL1, "dragon"]]))
+    nft_send(s, "usr0", COLL1, "Dragon", {"k": "create_bucket_cw721", "id": 5})
+    buy(s, "usr0", 5, 5)                                                             # refused: another token
+    nft_send(s, "usr2", COLL1, "DRAGON", {"k": "create_bucket_cw721", "id": 6})
+    buy(s, "usr2", 5, 6)                                                             # refused
+    nft_send(s, "usr0", COLL1, "\u00e9", {"k": "add_to_bucket_cw721", "id": 5})
+    listing(s, "usr3", 6, [["uosmo", 9]], G(f=[[COLL1, "Dragon"], [COLL1, "e\u0301"]]))
+    buy(s, "usr0", 6, 5)                                                             # refused: composed vs decomposed e-acute
+    nft_send(s, "usr1", COLL1, "dragon", {"k": "create_bucket_cw721", "id": 7})
+    s.query_here()
+    buy(s, "usr1", 5, 7)                                                             # the asked token: accepted
+    s.do(E("usr1", {"k": "withdraw_purchased", "id": 5}), "valid")
+    s.do(E("usr3", {"k": "remove_bucket", "id": 7}), "valid")
+    # two case variants in one ask / one record are two assets, not a duplicate
+    listing(s, "usr1", 8, [["uosmo", 1]], G(f=[[COLL1, "Dragon"], [COLL1, "DRAGON"]]))
+    nft_send(s, "usr2", COLL1, " 7", {"k": "add_to_bucket_cw721", "id": 6})          # usr1 got " 7" back; usr2 does not own it: refused
+    s.do({"t": "nft_transfer", "user": "usr0", "coll": COLL1, "token_id": "7", "to": "usr2"}, "valid")
+    nft_send(s, "usr2", COLL1, "7", {"k": "add_to_bucket_cw721", "id": 6})
+    s.do(E("usr0", {"k": "remove_bucket", "id": 5}), "valid")
+    s.do({"t": "nft_transfer", "user": "usr0", "coll": COLL1, "token_id": "Dragon", "to": "usr2"}, "valid")
+    nft_send(s, "usr2", COLL1, "Dragon", {"k": "add_to_bucket_cw721", "id": 6})
+    s.do(E("usr2", {"k": "remove_bucket", "id": 6}), "valid")
+
+
 SCRIPTS = {
     "traded_bucket_reused": (world.default_cfg, traded_bucket_reused, ()),
     "traded_bucket_topped_up": (world.default_cfg, traded_bucket_topped_up, ()),
@@ -1078,6 +1144,7 @@ SCRIPTS = {
     "long_lived_listings": (world.default_cfg, long_lived_listings, ()),
     "market_order": (world.default_cfg, market_order, ()),
     "big_amounts": (big_amounts_cfg, big_amounts, ()),
+    "odd_token_ids": (odd_token_ids_cfg, odd_token_ids, ()),
     "queries_pages": (queries_pages_cfg, queries_pages, ("all_pages",)),
     "queries_many_records": (queries_many_records_cfg, queries_many_records, ("all_pages", "no_drain")),
 }
